@@ -309,7 +309,7 @@ func exprKey(v ssa.Value) string {
 var keyMemo = map[ssa.Value]string{}
 
 func shortKey(k string) string {
-	if len(k) <= 160 {
+	if len(k) <= 2400 {
 		return k
 	}
 	h := uint32(2166136261)
@@ -480,6 +480,11 @@ func exprKeyRaw(v ssa.Value, d int) string {
 		}
 		return s + "]"
 	case *ssa.Extract:
+		if c, ok := v.Tuple.(*ssa.Call); ok {
+			if k, ok := inlineCallKeyIdx(c, v.Index, d); ok {
+				return k
+			}
+		}
 		return exprKeyD(v.Tuple, d+1) + "#" + fmt.Sprint(v.Index)
 	case *ssa.Phi:
 		return "phi:" + v.Comment
@@ -515,12 +520,21 @@ var curProg *Prog
 // normal return with one result as that result expression, with parameters
 // replaced by the argument expressions.
 func inlineCallKey(v *ssa.Call, d int) (string, bool) {
+	callee := calleeOf(&v.Call)
+	if callee == nil || callee.Signature.Results().Len() != 1 {
+		return "", false
+	}
+	return inlineCallKeyIdx(v, 0, d)
+}
+
+// inlineCallKeyIdx renders result idx of a call of a repository function with exactly one normal return.
+func inlineCallKeyIdx(v *ssa.Call, idx int, d int) (string, bool) {
 	p := curProg
 	callee := calleeOf(&v.Call)
 	if p == nil || callee == nil || callee.Pkg == nil || !InRepo(callee.Pkg.Pkg.Path()) || len(callee.Blocks) == 0 || d > 6 {
 		return "", false
 	}
-	if callee.Signature.Results().Len() != 1 || len(callee.Params) != len(v.Call.Args) {
+	if idx >= callee.Signature.Results().Len() || len(callee.Params) != len(v.Call.Args) {
 		return "", false
 	}
 	reach := p.reachable(callee)
@@ -536,7 +550,10 @@ func inlineCallKey(v *ssa.Call, d int) (string, bool) {
 	if len(rets) != 1 {
 		return "", false
 	}
-	rk := exprKeyD(rets[0].Results[0], d+2)
+	if idx >= len(rets[0].Results) {
+		return "", false
+	}
+	rk := exprKeyD(rets[0].Results[idx], d+2)
 	if strings.Contains(rk, "phi:") || strings.Contains(rk, "‹") {
 		// a result that is a phi of the callee (or abbreviated) has no meaning in the caller's terms
 		return "", false
